@@ -66,6 +66,10 @@ def solve(formula, display=True, log=False, params={}):
                 solver.Add(left == const[j])
             else:
                 solver.Add(left <= const[j])
+        else:
+            # a row without variables still has to hold: 0 == b or 0 <= b
+            lower = const[j] if sense[j] == 1 else -solver.infinity()
+            solver.RowConstraint(float(lower), float(const[j]), '')
 
     if display:
         print('Being solved by OR-Tools...', flush=True)
